@@ -14,20 +14,18 @@ package textwire
 // ---- string / file API ----
 
 // parsing builds a fresh lexer, parser and tree; it writes nothing that existed before
-// (the parser's own frame is stated type-wide, so this frame is trusted, not proved)
+// (proved: the parser writes only its own fields, its lexer, and memory it allocated)
 //@ func parseStr
 //@   ensures len(result1) == 0 ==> result0 != nil && WFNode(iface(result0))
 //@   ensures len(result1) != 0 ==> result0 == nil
-//@   modifies *
-//@   trusted-modifies nothing
+//@   modifies nothing
 
 //@ func parseProgram
 //@   ensures result1 == nil && result2 == nil ==> result0 != nil && fresh(result0) && WFNode(iface(result0))
 //@   ensures result1 == nil && result2 == nil ==> forall(i, 0, len(result0.Components), result0.Components[i].Block == nil)
 //@   ensures result1 == nil && result2 == nil ==> forallkey(result0.Reserves, k, result0.Reserves[k].Name.Value == k)
 //@   ensures result1 == nil && result2 == nil ==> forall(i, 0, len(result0.Components), forall(j, 0, len(result0.Components), i != j ==> result0.Components[i] != result0.Components[j]))
-//@   modifies *
-//@   trusted-modifies nothing
+//@   modifies nothing
 
 // C15/C16: a render must not write package-level state, the loaded programs or the caller's data
 //@ func EvaluateString
